@@ -71,11 +71,11 @@ def _check_main(run, P):
              "its handler, in the interpreter and in the Python generator: the call "
              "is made, the value stored, the event produced, the exception raised",
              minimum=12)
-    _effects(run, P)
+    run.do(_effects, run, P)
     run.rule("C01.arrays", "array constants have the element type the interpreter gives "
              "them; the bounds of an inner array loop are evaluated inside the outer "
              "loop, in both back ends", minimum=3)
-    _arrays(run, P)
+    run.do(_arrays, run, P)
     run.rule("C01.builder", "builder bookkeeping: guards, fresh names and the "
              "dependency edges that make every admissible order equal the written order "
              "(shared with C02)", minimum=25)
@@ -84,17 +84,17 @@ def _check_main(run, P):
              "from the function table only (shared with C08.reads), evaluates every "
              "positional argument in order and every keyword argument under its own name; "
              "the Python printer prints them likewise", minimum=5)
-    _calls(run, P)
-    _handlers(run, P)
-    _driver(run, P)
-    _step(run, P)
-    _events(run, P)
-    _binding(run, P)
-    _fields(run, P)
-    _store(run, P)
-    _persist(run, P)
-    _prec(run, P)
-    _genfunc(run, P)
+    run.do(_calls, run, P)
+    run.do(_handlers, run, P)
+    run.do(_driver, run, P)
+    run.do(_step, run, P)
+    run.do(_events, run, P)
+    run.do(_binding, run, P)
+    run.do(_fields, run, P)
+    run.do(_store, run, P)
+    run.do(_persist, run, P)
+    run.do(_prec, run, P)
+    run.do(_genfunc, run, P)
     # lowering and plan execution are part of both back ends' contract
     run.rule("C01.lower", "the lowering keeps order, loops and guards (shared with "
              "C05.topo / C05.wrap / C05.loops / C05.cond / C05.walker)", minimum=15)
@@ -107,7 +107,7 @@ def _check_main(run, P):
         run.rule_docs[src_rule] = ""
         run.minimum[src_rule] = 0
     n0 = len(run.obs)
-    c05._topo_wrap(run, P)
+    run.do(c05._topo_wrap, run, P)
     for o in run.obs[n0:]:
         o.rule = "C01.lower"
     for src_rule in ("C05.topo", "C05.wrap"):
@@ -118,12 +118,13 @@ def _check_main(run, P):
     _alias(run, "C05.walker", "C01.lower", lambda: c05._walker(run, P))
     C = P.cls(c04.EC)
     _alias(run, "C04.post", "C01.plan", lambda: c04._post(run, P, C))
+    _alias(run, "C04.post", "C01.plan", lambda: c04._skipsets(run, P, C))
     _alias(run, "C04.front", "C01.plan", lambda: c04._front(run, P, C))
     for src_rule in ("C04.mark", "C04.dispatch"):
         run.rule_docs[src_rule] = ""
         run.minimum[src_rule] = 0
     n0 = len(run.obs)
-    c04._mark(run, P, C)
+    run.do(c04._mark, run, P, C)
     for o in run.obs[n0:]:
         o.rule = "C01.plan"
     for src_rule in ("C04.mark", "C04.dispatch"):
@@ -161,7 +162,7 @@ def _alias(run, src_rule, dst_rule, thunk):
         run.rule_docs[src_rule] = ""
         run.minimum[src_rule] = 0
     n0 = len(run.obs)
-    thunk()
+    run.do(thunk)
     for o in run.obs[n0:]:
         if o.rule == src_rule:
             o.rule = dst_rule
